@@ -317,9 +317,14 @@ def predicates(prog, ctx):
 def submatrix(prog, ctx):
     R = 'C04.b'
     fn = prog.fn(L + 'Matrix::Sub_Matrix')
-    cs = [c for c in calls(fn) if c.get('kind') == 'method' and c['callee'].get('inrepo')]
-    order = [(c['callee']['name'], show(strip_casts(c['args'][0])) if c.get('args') else '') for c in cs]
+    from ..symx import call_arg_terms
     p0, p1 = fn.params[0]['name'], fn.params[1]['name']
+    try:
+        ct = call_arg_terms(prog, fn, lambda c: c.get('kind') == 'method' and c['callee'].get('inrepo'))
+    except Undecided as ex_:
+        ctx.undecided(R, 'Matrix::Sub_Matrix', fn, str(ex_))
+        return
+    order = [(n_, str(a_[0]) if a_ else '') for n_, a_ in ct]
     ok = ('Delete_Row', p0) in order and ('Delete_Column', p1) in order and len(order) == 2
     # the working copy is built from this->components
     ctx.decide(R, 'Matrix::Sub_Matrix', fn, ok, 'deletes row `%s` and column `%s` of a copy' % (p0, p1),
